@@ -39,6 +39,12 @@ pub mod layout {
     mod rayon {
         pub use crate::seams::shim_rayon::*;
     }
+    /// (round 15) a library that itself meets the environment is called in its copy behind the
+    /// seams (libgen.rs); otherwise this name is the extern crate
+    #[cfg(all(gens_use_libgen, feature = "libgen"))]
+    mod unic_langid_impl {
+        pub use crate::libgen::root::*;
+    }
     // std's LocalKey<RefCell<T>>/LocalKey<Cell<T>> conveniences for the engine's thread locals
     use crate::seams::{LocalKeyCellExt as _, LocalKeyRefCellExt as _};
     macro_rules! println {
@@ -88,6 +94,12 @@ pub mod likely {
     }
     mod rayon {
         pub use crate::seams::shim_rayon::*;
+    }
+    /// (round 15) a library that itself meets the environment is called in its copy behind the
+    /// seams (libgen.rs); otherwise this name is the extern crate
+    #[cfg(all(gens_use_libgen, feature = "libgen"))]
+    mod unic_langid_impl {
+        pub use crate::libgen::root::*;
     }
     // std's LocalKey<RefCell<T>>/LocalKey<Cell<T>> conveniences for the engine's thread locals
     use crate::seams::{LocalKeyCellExt as _, LocalKeyRefCellExt as _};
